@@ -158,7 +158,18 @@ class Recorder:
         call = Call(it=it.idx, name=name, kind=m["kind"], tm=tm, state_tm=state_tm, ic=ic, now=self.clock.t,
                     depth=self.depth, action="none", target=None, seq=self.nextseq(), dur=dur)
         it.calls.append(call)
-        if m["kind"] == "default" or self.budget <= 0:
+        if m["kind"] == "default":
+            # a default state (e.g. one watching a sensor) may request a transition, nothing else
+            if self.cfg.get("default_acts") and self.budget > 0:
+                tg = self.cfg["targets"]
+                k = c.choose(f"dact{self.ncalls}", len(tg) + 1)
+                if k:
+                    self.budget -= 1
+                    call.action, call.target = "next_state", tg[k - 1]
+                    c.reach("default-state-requests-transition")
+                    sm.next_state(tg[k - 1])
+            return
+        if self.budget <= 0:
             return
         targets = self.cfg["targets"]
         allow_nsn = self.depth < self.maxdepth
